@@ -1,7 +1,7 @@
 (* C17 lemmas about the definitions of Model/C17_Model.v (the ones C17_agree evaluates). *)
 From Coq Require Import ZArith QArith Qminmax Qabs List Bool Lia Lqa Setoid Morphisms.
 From FV Require Import Common.ListX Common.CMonoid Common.NanQ Common.QVec Model.C17_Model.
-From FV Require gen.Gen_c17_agnostic gen.Gen_c17_hyp_cluster gen.Gen_c17_apfl gen.Gen_c17_mime_lite gen.Gen_c17_optimizers gen.Gen_tree_util.
+From FV Require gen.Gen_c17_agnostic gen.Gen_c17_hyp_cluster gen.Gen_c17_apfl gen.Gen_c17_mime_lite gen.Gen_c17_optimizers gen.Gen_tree_util gen.Gen_util.
 Import ListNotations.
 Local Open Scope Q_scope.
 
@@ -377,6 +377,7 @@ Qed.
 (* the structural facts the model relies on, as found in the source on this run *)
 Lemma code_structure :
   Gen_c17_agnostic.server_update_passes_weights_through = true /\
+  Gen_c17_agnostic.empty_cohort_gives_zeros = true /\
   Gen_c17_hyp_cluster.accumulate_into_assigned_cluster = true /\
   Gen_c17_hyp_cluster.assignment_is_argmin = true /\
   Gen_c17_mime_lite.clip_before_aggregate = true /\ Gen_c17_mime_lite.clip_uses_global_norm = true /\
@@ -393,3 +394,60 @@ Lemma model_uses_translated_code :
   (forall st, cluster_delta st = Gen_c17_hyp_cluster.cluster_delta_gen (fun s n => vscale (/ n) s) (fst st) (snd st)) /\
   (forall x, clip01 x = Qmin (Qmax x Gen_c17_apfl.apfl_clip_lo) Gen_c17_apfl.apfl_clip_hi).
 Proof. repeat split; reflexivity. Qed.
+
+
+(* ---------------- AgnosticFedAvg: the client scaling (alpha, beta, scaled loss) never leaves the finite values ---------------- *)
+Lemma safe_div_finite a b : exists q, Gen_util.safe_div (Some a) (Some b) = Some q.
+Proof.
+  unfold Gen_util.safe_div, NanQ.neb, NanQ.eqb, NanQ.of_Q. cbn.
+  destruct (Qeq_bool b 0) eqn:E; cbn.
+  - eexists. reflexivity.
+  - rewrite E. eexists. reflexivity.
+Qed.
+
+Lemma map2_safe_div_finite w : forall m, exists l, map2 Gen_util.safe_div (map Some w) (map Some m) = map Some l.
+Proof.
+  induction w as [|x w IH]; intros [|y m]; cbn [map map2]; try (exists []; reflexivity).
+  destruct (safe_div_finite x y) as [q Hq]. destruct (IH m) as [l Hl]. exists (q :: l). cbn [map]. rewrite Hq, Hl. reflexivity.
+Qed.
+
+Lemma sum_mul_finite a b : exists q, NanQ.sum (map2 NanQ.mul (map Some a) (map Some b)) = Some q.
+Proof. change NanQ.mul with (NanQ.lift2 Qmult). rewrite map2_lift2, NanQ.sum_Some. eexists. reflexivity. Qed.
+
+(* with finite weights, window means (zero allowed: a starved domain), counts and losses, and ANY finite beta (zero
+   allowed: a client without examples of a live domain), alpha, beta and the scaled loss are finite *)
+Lemma agnostic_scaling_finite w m num sl :
+  exists al be, Gen_c17_agnostic.alpha_gen (map Some w) (map Some m) = map Some al /\
+                Gen_c17_agnostic.beta_gen (map Some al) (map Some num) = Some be /\
+                exists lo, Gen_c17_agnostic.scaled_loss_gen (map Some al) (map Some sl) (Some be) = Some lo.
+Proof.
+  destruct (map2_safe_div_finite w m) as [al Ha]. destruct (sum_mul_finite al num) as [be Hb].
+  exists al, be. split; [exact Ha|]. split; [exact Hb|].
+  unfold Gen_c17_agnostic.scaled_loss_gen. destruct (sum_mul_finite al sl) as [x Hx]. rewrite Hx. apply safe_div_finite.
+Qed.
+
+(* ---------------- HypCluster: the model's running sums ARE the translated loop body of expectation_step ---------------- *)
+Lemma cluster_step_is_code acc a n d :
+  (map fst (cluster_step acc (a, n, d)), map snd (cluster_step acc (a, n, d))) =
+  Gen_c17_hyp_cluster.expectation_accumulate vadd (fun dl w => vscale w dl) (map fst acc) (map snd acc) a d n.
+Proof.
+  unfold cluster_step, Gen_c17_hyp_cluster.expectation_accumulate. revert a.
+  induction acc as [|[s c] acc IH]; intros [|a]; cbn; try reflexivity.
+  specialize (IH a). inversion IH as [[H1 H2]]. rewrite H1, H2. reflexivity.
+Qed.
+
+(* the vector operations of the model are the translated tree_util operations on finite values *)
+Lemma tree_ops_are_vector_ops :
+  (forall a b, Gen_tree_util.tree_add (map Some a) (map Some b) = map Some (vadd a b)) /\
+  (forall d n, Forall2 NanQ.eq (Gen_tree_util.tree_weight (map Some d) (Some n)) (map Some (vscale n d))) /\
+  (forall s n, 0 < n -> Forall2 NanQ.eq (Gen_tree_util.tree_inverse_weight (map Some s) (Some n)) (map Some (vscale (/ n) s))).
+Proof.
+  split; [|split].
+  - intros a b. unfold Gen_tree_util.tree_add, vadd. change NanQ.add with (NanQ.lift2 Qplus). apply map2_lift2.
+  - intros d n. unfold Gen_tree_util.tree_weight, vscale. induction d as [|x d IH]; cbn; constructor; auto. cbn. ring.
+  - intros s n P. unfold Gen_tree_util.tree_inverse_weight, Gen_tree_util.tree_weight, vscale. cbv zeta.
+    unfold NanQ.gtb, NanQ.ltb, NanQ.of_Q. assert (L : Qltb 0 n = true) by (apply Qltb_lt; exact P).
+    replace (Qltb (0 # 1) n) with true by (symmetry; exact L). cbn [NanQ.where_].
+    rewrite NanQ.div_Some by lra.
+    induction s as [|x s IH]; cbn; constructor; auto. cbn. field. lra.
+Qed.
